@@ -54,12 +54,14 @@ LeafOf(name) ==
     [] name = "STR8" -> [k |-> "str", p |-> U8, nt |-> TRUE]
     [] name = "STR16n" -> [k |-> "str", p |-> U16, nt |-> FALSE]
     [] name = "SF3" -> [k |-> "strfixed", n |-> 3]
+    [] name = "SF8" -> [k |-> "strfixed", n |-> 8]
+    [] name = "SF8" -> [k |-> "strfixed", n |-> 8]
     [] name = "CS" -> [k |-> "cstr", terms |-> <<0>>, wt |-> TRUE, eof |-> TRUE]
     [] name = "CSn" -> [k |-> "cstr", terms |-> <<10>>, wt |-> FALSE, eof |-> TRUE]
     [] name = "BIT8" -> BitF(U8, <<[n |-> "a", bits |-> 3], [n |-> "b", bits |-> 5]>>, TRUE)
     [] name = "BIT16n" -> BitF(U16, <<[n |-> "a", bits |-> 4], [n |-> "b", bits |-> 12]>>, FALSE)
 AllLeafNames == {"U8", "S8", "U16", "S16", "U32", "S32", "U64", "S64", "F32", "F64", "UUID", "Vec3", "Null",
-                 "BA8", "BAS8", "BA16", "BA32", "BF2", "BG", "BT", "BTs", "BTn", "STR8", "STR16n", "SF3", "CS", "CSn",
+                 "BA8", "BAS8", "BA16", "BA32", "BF2", "BG", "BT", "BTs", "BTn", "STR8", "STR16n", "SF3", "SF8", "CS", "CSn",
                  "BIT8", "BIT16n"}
 
 \* --------------------------------------------------------------- constructors
@@ -170,6 +172,22 @@ UnderNine(t) == Rep(255, 9 - t.w) \o <<127>> \o Rep(255, t.w - 1)
 IntVals(t) == <<[i |-> 0], CanonInt(Zeros(9 - t.w) \o [j \in 1..t.w |-> j]), CanonInt(MaxNine(t))>>
               \o (IF t.s THEN <<CanonInt(MinNine(t)), [i |-> -2]>> ELSE <<>>)
               \o <<CanonInt(OverNine(t)), IF t.s THEN CanonInt(UnderNine(t)) ELSE [i |-> -1]>>
+\* UTF-8 text: one character of 2, 3 and 4 bytes (e-acute, CJK "sun", mathematical fraktur u)
+U2 == <<195, 169>>
+U3 == <<230, 151, 165>>
+U4 == <<240, 157, 148, 178>>
+RepSeq(q, n) == Flat([j \in 1..n |-> q])
+\* text for a field of n BYTES: multi-byte characters at the first and at the last position, values that fill the
+\* field exactly, values one byte short (padding), and values whose CHARACTER count fits but whose byte count does not
+TextVals(n) ==
+  LET A(k) == Rep(97, k)
+      T(q) == [s |-> q]
+  IN (IF n >= 2 THEN <<T(A(n - 2) \o U2), T(U2 \o A(n - 2))>> ELSE <<>>)
+     \o (IF n >= 3 THEN <<T(A(n - 3) \o U2), T(A(n - 3) \o U3), T(U3 \o A(n - 3))>> ELSE <<>>)
+     \o (IF n >= 4 THEN <<T(A(n - 4) \o U3), T(U4 \o A(n - 4)), T(A(n - 4) \o U4)>> ELSE <<>>)
+     \o (IF n >= 5 THEN <<T(A(n - 5) \o U4), T(A(n - 5) \o U2 \o U3)>> ELSE <<>>)
+     \o <<T(RepSeq(U2, n \div 2 + 1)), T(RepSeq(U3, n \div 3 + 1)), T(RepSeq(U4, n \div 4 + 1)),
+          T(A(n - 1) \o U2), T(A(n - 1) \o U4)>>
 MaxLen(p) == IF p.w = 1 THEN (IF p.s THEN 127 ELSE 255) ELSE -1
 
 BitVals(t) ==
@@ -208,11 +226,18 @@ V(t) ==
     [] t.k = "str" ->
          <<[s |-> <<104, 105>>], [s |-> <<>>], [s |-> <<97, 0, 98>>], [s |-> <<195, 169>>], [s |-> <<97, 0>>]>>
          \o (IF MaxLen(t.p) > 0
-             THEN LET m == MaxLen(t.p) - (IF t.nt THEN 1 ELSE 0) IN <<[s |-> Rep(97, m)], [s |-> Rep(97, m + 1)]>>
+             THEN LET m == MaxLen(t.p) - (IF t.nt THEN 1 ELSE 0)
+                  IN <<[s |-> Rep(97, m)], [s |-> Rep(97, m + 1)],
+                       \* the limit counts BYTES: exactly m bytes in fewer characters, and fewer than m characters in more than m bytes
+                       [s |-> Rep(97, m % 2) \o RepSeq(U2, m \div 2)], [s |-> RepSeq(U2, m \div 2 + 1)],
+                       [s |-> Rep(97, m % 4) \o RepSeq(U4, m \div 4)], [s |-> RepSeq(U3, m \div 3 + 1)]>>
              ELSE <<>>)
+         \o <<[s |-> <<104>> \o U3], [s |-> U4], [s |-> U2 \o <<0>> \o U4]>>
     [] t.k = "strfixed" -> <<[s |-> <<97>>], [s |-> <<>>], [s |-> Rep(98, t.n)], [s |-> Rep(99, t.n + 1)]>>
                            \o (IF t.n >= 3 THEN <<[s |-> <<97, 0, 98>>]>> ELSE <<>>)
-    [] t.k = "cstr" -> <<[s |-> <<104, 105>>], [s |-> <<>>], [s |-> <<195, 169>>], [s |-> <<104, t.terms[1]>>]>>
+                           \o TextVals(t.n)
+    [] t.k = "cstr" -> <<[s |-> <<104, 105>>], [s |-> <<>>], [s |-> <<195, 169>>], [s |-> <<104, t.terms[1]>>],
+                         [s |-> <<104>> \o U4], [s |-> U3 \o <<105>> \o U2], [s |-> U4 \o U3]>>
     [] t.k = "bitfield" -> BitVals(t)
     [] t.k = "tuple" ->
          LET ps == Prod([j \in 1..Len(t.cs) |-> Cap(V(t.cs[j]), CapIn)], 4 * CapOut)
